@@ -1,6 +1,7 @@
 package decoder
 
 import (
+	"reflect"
 	"strconv"
 	"unsafe"
 
@@ -11,6 +12,29 @@ type floatDecoder struct {
 	op         func(unsafe.Pointer, float64)
 	structName string
 	fieldName  string
+	bitSize    int // 32 for float32 destinations: the literal is rounded and range-checked as float32
+}
+
+func (d *floatDecoder) parse(s string, offset int64) (float64, error) {
+	bitSize := 64
+	if d.bitSize != 0 {
+		bitSize = d.bitSize
+	}
+	f64, err := strconv.ParseFloat(s, bitSize)
+	if err == nil {
+		return f64, nil
+	}
+	if ne, ok := err.(*strconv.NumError); ok && ne.Err == strconv.ErrRange && bitSize == 32 {
+		// in the float64 range but not in the float32 range: a type error, as in encoding/json
+		return 0, &errors.UnmarshalTypeError{
+			Value:  "number " + s,
+			Type:   reflect.TypeOf(float32(0)),
+			Struct: d.structName,
+			Field:  d.fieldName,
+			Offset: offset,
+		}
+	}
+	return 0, errors.ErrSyntax(err.Error(), offset)
 }
 
 func newFloatDecoder(structName, fieldName string, op func(unsafe.Pointer, float64)) *floatDecoder {
@@ -127,9 +151,9 @@ func (d *floatDecoder) DecodeStream(s *Stream, depth int64, p unsafe.Pointer) er
 		return nil
 	}
 	str := *(*string)(unsafe.Pointer(&bytes))
-	f64, err := strconv.ParseFloat(str, 64)
+	f64, err := d.parse(str, s.totalOffset())
 	if err != nil {
-		return errors.ErrSyntax(err.Error(), s.totalOffset())
+		return err
 	}
 	d.op(p, f64)
 	return nil
@@ -149,9 +173,9 @@ func (d *floatDecoder) Decode(ctx *RuntimeContext, cursor, depth int64, p unsafe
 		return 0, errors.ErrUnexpectedEndOfJSON("float", cursor)
 	}
 	s := *(*string)(unsafe.Pointer(&bytes))
-	f64, err := strconv.ParseFloat(s, 64)
+	f64, err := d.parse(s, cursor)
 	if err != nil {
-		return 0, errors.ErrSyntax(err.Error(), cursor)
+		return 0, err
 	}
 	d.op(p, f64)
 	return cursor, nil
